@@ -47,6 +47,18 @@ NOT_COMPARED = ["order of the yielded matches (compared as a sorted multiset)",
 TOL = Fraction(1, 2 ** 40)
 _CTX = None
 _CACHE = {}
+_OWN_DRIVER = None
+
+
+def _model(op, args):
+    """the model through the running check, or (in --replay mode, where run() is not called) an own driver"""
+    global _OWN_DRIVER
+    if _CTX is not None:
+        return _CTX.model(op, args)
+    if _OWN_DRIVER is None:
+        from .. import leanio
+        _OWN_DRIVER = leanio.Driver()
+    return _OWN_DRIVER.call(PROPERTY, op, args)
 
 
 def _f(s):
@@ -141,9 +153,10 @@ def _mk_compare(args_of):
         # implementation's own pairs (the monitor `holds` has judged its optimality already)
         a = dict(args_of(inp))
         a["assigned"] = [[e[0], e[1]] for e in got if e[0] is not None and e[1] is not None]
-        alt = _CTX.model("match", a)
+        alt = _model("match", a)
         if "val" in alt and _sort_entries(alt["val"]) == got:
-            _CTX.tally("tie-break differs from scipy-as-called")
+            if _CTX is not None:
+                _CTX.tally("tie-break differs from scipy-as-called")
             return None
         return "match_geometries and selectMatches(scipy's assignment) disagree"
     return compare
